@@ -153,6 +153,16 @@ def base_grammars():
     g.min_n = 7
     gs.append(g)
 
+    # more than 127 states: the tables switch to i16 entries
+    kws = ["k%d" % i for i in range(12)]
+    g = Grammar("wide_i16", terms(" ".join(kws) + " a b c"), [
+        NT("S", [A(k, "X%d" % i) for i, k in enumerate(kws)], pub=True),
+    ] + [NT("X%d" % i, [A("a", "b", "c"), A("a", "c", "X%d" % i)] if i % 2 == 0 else [A("a", "X%d" % i, "b"), A("c")]) for i in range(12)],
+        tags=["more than 127 states (i16 table entries)", "wide action rows"])
+    g.heavy = True
+    g.min_n = 4
+    gs.append(g)
+
     gs.append(Grammar("palin", terms("a b c"), [
         NT("P", [A("a", "P", "a"), A("b", "P", "b"), A("c")], pub=True),
     ], tags=["center-marked palindromes", "deep stack"]))
